@@ -88,7 +88,7 @@ func main() {
 	eng := &Engine{
 		prog: prog, pkgs: map[string]*ssa.Package{}, specs: newSpecs(), reg: newSortReg(),
 		hsorts: map[string]string{}, gtypes: map[string]types.Type{}, sentinel: map[string]bool{},
-		uncontracted: map[string]int{}, assumedUsed: map[string]bool{}, inlinedUsed: map[string]bool{},
+		uncontracted: map[string]int{}, assumedUsed: map[string]bool{}, atCallSeen: map[*Clause]bool{}, inlinedUsed: map[string]bool{},
 		cfg: Config{MaxPaths: 4096, MaxInline: 8, Safety: *safety, RepoPrefix: "github.com/transparency-dev/witness"},
 	}
 	for _, p := range prog.AllPackages() {
@@ -246,6 +246,11 @@ func main() {
 			eng.paths = 0
 			eng.abort = false
 			eng.verifyFunction(fn, eng.specs.Contracts[k])
+			for _, cl := range eng.specs.Contracts[k].AtCalls {
+				if !eng.atCallSeen[cl] {
+					eng.errorf("%s: atcall %s (%s:%d): no call of that function on any path", fn, cl.Callee, cl.File, cl.Line)
+				}
+			}
 			rep.Funcs = append(rep.Funcs, k)
 			rep.FuncStats[k] = FuncStat{Paths: eng.paths, Obligations: len(eng.obls) - before, Blocks: len(fn.Blocks)}
 			rep.Paths[k] = eng.paths
@@ -276,7 +281,7 @@ func main() {
 	// (loop invariants, variants, callee preconditions) belong to the property as well
 	fnWanted := map[string]bool{}
 	for _, o := range eng.obls {
-		if o.Kind == "ensures" || o.Kind == "crash-invariant" {
+		if o.Kind == "ensures" || o.Kind == "crash-invariant" || o.Kind == "atcall" {
 			for _, t := range o.Tags {
 				if match(t) {
 					fnWanted[o.Func] = true
